@@ -78,10 +78,187 @@ def ref_kind(ty: str) -> str:
 # facts
 
 
+# --------------------------------------------------------------------------------------
+# bounded inlining of helpers that are unknown to the rule set
+
+
+def _load_inventory():
+    import os
+    p = os.path.join(os.path.dirname(os.path.abspath(__file__)), 'inventory.txt')
+    if not os.path.exists(p):
+        return None
+    return {l.rstrip('\n') for l in open(p) if l.strip() and not l.startswith('#')}
+
+
+def _rename_place(pl, lm):
+    return {'local': lm(pl['local']), 'proj': [dict(p, local=lm(p['local'])) if p['k'] == 'index' else p for p in pl['proj']]}
+
+
+def _rename_op(op, lm):
+    if op['k'] in ('copy', 'move'):
+        return dict(op, place=_rename_place(op['place'], lm))
+    return op
+
+
+def _rename_rv(rv, lm):
+    k = rv['k']
+    r = dict(rv)
+    if k in ('use', 'cast', 'repeat'):
+        r['op'] = _rename_op(rv['op'], lm)
+    elif k in ('ref', 'rawptr', 'copy_for_deref', 'discr'):
+        r['place'] = _rename_place(rv['place'], lm)
+    elif k == 'agg':
+        r['ops'] = [_rename_op(o, lm) for o in rv['ops']]
+    elif k == 'binop':
+        r['l'] = _rename_op(rv['l'], lm)
+        r['r'] = _rename_op(rv['r'], lm)
+    elif k == 'unop':
+        r['x'] = _rename_op(rv['x'], lm)
+    return r
+
+
+def inline_call(b, bb, c):
+    """Graft the body dict `c` of the callee at the call terminating block `bb` of body dict `b` (in place)."""
+    t = b['blocks'][bb]['term']
+    lbase = len(b['locals'])
+    bbase = len(b['blocks'])
+    lm = lambda l: l + lbase
+    bm = lambda x: x + bbase
+    for l in c['locals']:
+        b['locals'].append(dict(l, i=l['i'] + lbase))
+    for d in c['debug']:
+        v = d['value']
+        if 'local' in v:
+            b['debug'].append({'name': d['name'], 'value': _rename_place(v, lm), 'arg': None})
+    cont = t['target']
+    dest = t['dest']
+    span = t['span']
+    # arguments -> callee parameter locals
+    stmts = b['blocks'][bb]['stmts']
+    for k, a in enumerate(t['args']):
+        stmts.append({'k': 'assign', 'place': {'local': lm(k + 1), 'proj': []}, 'rv': {'k': 'use', 'op': a}, 'span': span, 'exp': t.get('exp', False)})
+    b['blocks'][bb]['term'] = {'k': 'goto', 'target': bm(0), 'span': span, 'exp': t.get('exp', False)}
+    for blk in c['blocks']:
+        nb = {'cleanup': blk['cleanup'], 'stmts': [], 'term': None}
+        for st in blk['stmts']:
+            s2 = dict(st)
+            if 'place' in st:
+                s2['place'] = _rename_place(st['place'], lm)
+            if 'rv' in st:
+                s2['rv'] = _rename_rv(st['rv'], lm)
+            nb['stmts'].append(s2)
+        tt = dict(blk['term'])
+        k = tt['k']
+        if k == 'return':
+            nb['stmts'].append({'k': 'assign', 'place': dest, 'rv': {'k': 'use', 'op': {'k': 'move', 'place': {'local': lm(0), 'proj': []}}}, 'span': tt['span'], 'exp': tt.get('exp', False)})
+            tt = {'k': 'goto', 'target': cont, 'span': tt['span'], 'exp': tt.get('exp', False)} if cont is not None else {'k': 'unreachable', 'span': tt['span'], 'exp': False}
+        else:
+            for key in ('target', 'otherwise'):
+                if tt.get(key) is not None and isinstance(tt.get(key), int):
+                    tt[key] = bm(tt[key])
+            if k == 'switch':
+                tt['targets'] = [[v, bm(x)] for v, x in tt['targets']]
+                tt['discr'] = _rename_op(tt['discr'], lm)
+            if k == 'call':
+                tt['args'] = [_rename_op(a, lm) for a in tt['args']]
+                tt['dest'] = _rename_place(tt['dest'], lm)
+                if 'indirect' in tt['func']:
+                    tt['func'] = dict(tt['func'], indirect=_rename_op(tt['func']['indirect'], lm))
+            if k == 'drop':
+                tt['place'] = _rename_place(tt['place'], lm)
+            if k == 'assert':
+                tt['cond'] = _rename_op(tt['cond'], lm)
+            if k == 'other':
+                tt['succ'] = [bm(x) for x in tt.get('succ', [])]
+        nb['term'] = tt
+        b['blocks'].append(nb)
+    b.setdefault('inlined', []).append(c['path'])
+    for pr in c.get('promoted', []):
+        pass
+    # promoted constants of the callee are referenced by index: append and remap
+    if c.get('promoted'):
+        off = len(b.get('promoted', []))
+        b.setdefault('promoted', []).extend(c['promoted'])
+        for blk in b['blocks'][bbase:]:
+            for st in blk['stmts']:
+                _shift_promoted(st.get('rv'), off)
+            for a in blk['term'].get('args', []) if blk['term']['k'] == 'call' else []:
+                _shift_promoted_op(a, off)
+
+
+def _shift_promoted_op(op, off):
+    if isinstance(op, dict) and op.get('k') == 'const' and 'promoted' in op:
+        op['promoted'] = op['promoted'] + off
+
+
+def _shift_promoted(rv, off):
+    if not isinstance(rv, dict):
+        return
+    for key in ('op', 'l', 'r', 'x'):
+        if key in rv:
+            _shift_promoted_op(rv[key], off)
+    for o in rv.get('ops', []):
+        _shift_promoted_op(o, off)
+
+
+def apply_inlining(doc, inventory, depth=3):
+    """Inline calls to crate-local, non-public functions that are not in the rule set's inventory (helpers extracted after the
+    inventory was taken) into their callers, so that a helper extraction does not hide an anchored construct."""
+    if inventory is None:
+        return []
+    by_def = {}
+    for b in doc['bodies']:
+        if b['kind'] != 'Closure':
+            by_def[b['path']] = b
+    def qn(b):
+        bb = Body.__new__(Body)
+        return None
+    done = []
+    helpers = {}
+    for b in doc['bodies']:
+        if b['kind'] == 'Closure' or b.get('is_pub'):
+            continue
+        q = _qname_of_dict(b)
+        if q not in inventory:
+            helpers[b['path']] = b
+    if not helpers:
+        return []
+    import copy
+    pristine = {p: copy.deepcopy(b) for p, b in helpers.items()}
+    for _ in range(depth):
+        changed = False
+        for b in doc['bodies']:
+            n0 = len(b['blocks'])   # only the calls present at the start of this round (bounds recursion)
+            for i in range(n0):
+                t = b['blocks'][i]['term']
+                if t['k'] == 'call' and not b['blocks'][i]['cleanup']:
+                    f = t['func']
+                    target = f.get('resolved') or f.get('def')
+                    if target in pristine and target != b['path'] and t['target'] is not None:
+                        inline_call(b, i, copy.deepcopy(pristine[target]))
+                        done.append((b['path'], target))
+                        changed = True
+        if not changed:
+            break
+    return done
+
+
+def _qname_of_dict(b):
+    st = b.get('impl_self')
+    tr = b.get('impl_trait')
+    if tr:
+        return '<%s as %s>::%s' % (base_type(st), strip_generics_inner(tr).split('::')[-1], b['name'])
+    if st:
+        return '%s::%s' % (base_type(st), b['name'])
+    return b['name']
+
+
 class Facts:
     def __init__(self, doc):
         self.doc = doc
         self.meta = doc['meta']
+        self.inlined = apply_inlining(doc, _load_inventory())
+        self.helper_paths = {h for _, h in self.inlined}
         self.adts = {a['path']: a for a in doc['adts']}
         self.bodies = [Body(self, b) for b in doc['bodies']]
         self.by_path = {b.path: b for b in self.bodies}
@@ -110,6 +287,10 @@ class Facts:
         if len(c) > 1:
             raise KeyError('ambiguous qname %s: %s' % (qname, [b.path for b in c]))
         return c[0]
+
+    def units(self):
+        """Bodies that are analysed as units of their own: helpers that were inlined into their callers are excluded."""
+        return [b for b in self.bodies if b.path not in self.helper_paths]
 
     def qs(self, qname):
         return list(self.by_qname.get(qname, []))
@@ -298,7 +479,8 @@ class Body:
         return self._defs
 
     def closure_bodies(self):
-        return [b for b in self.facts.bodies if b.kind == 'Closure' and b.root == self.path]
+        roots = {self.path} | set(self.b.get('inlined', []))
+        return [b for b in self.facts.bodies if b.kind == 'Closure' and b.root in roots]
 
 
 class CFG:
